@@ -12,7 +12,7 @@ META = {
              'total = reported total); crash points = an exception injected after the k-th physical write, for every k; '
              'signature = (rows class, input-chunk relation, #flushes class, output-chunk relation, prior content, crash k '
              'class); non-trivial when there are >= 2 flushes, a remainder chunk or an injected crash'),
-    'required_obs': {'quick': ['ics-astronomical', 'flushes>=3', 'flush-at-exact-fit', 'remainder-chunk', 'crash-first', 'crash-middle', 'crash-last',
+    'required_obs': {'quick': ['syscall-traced', 'syscall-target-closes>=3', 'ics-astronomical', 'flushes>=3', 'flush-at-exact-fit', 'remainder-chunk', 'crash-first', 'crash-middle', 'crash-last',
                                'prior-longer', 'prior-shorter', 'ocs-float', 'ocs-eq-record', 'ics-gt-rows', 'ics-1',
                                'invalid-config-tried', 'reported-size-compared', 'window', 'contract-evals-write_bytes',
                                'contract-evals-buffer-invariant', 'one-data-object-many-configurations', 'cast-of-special-values']},
@@ -39,6 +39,10 @@ def cases(tier, seed):
     # one DLISFile and ONE caller-owned data object written several times, each time with other chunk sizes
     for k in range(30 if tier == 'quick' else 600):
         yield {'stratum': 'one-data-object-many-configurations', 'index': k, 'kind': 'shared'}
+    # the same property observed from OUTSIDE the process: strace of a child that does nothing but one write between two
+    # markers -- how the target is opened, what is written to it, where it stands every time it is closed
+    for k in range(8 if tier == 'quick' else 120):
+        yield {'stratum': 'syscall-trace', 'index': k, 'kind': 'syscalls'}
     yield {'stratum': 'invalid', 'index': 0, 'kind': 'invalid'}
     if tier == 'thorough':
         yield {'stratum': 'default-output-chunk', 'index': 0, 'kind': 'default', 'once': True}
@@ -134,6 +138,45 @@ def run_case(case):
                 vio.append({'prop': PROP, 'kind': 'flush-mid-record', 'mech': 'flush-mid-record',
                             'detail': f'{label}: flush {j + 1} ends at offset {len(disk)}, not a visible-record boundary'})
                 return
+
+    if case['kind'] == 'syscalls':
+        from vf import syscalls
+        if not syscalls.available():
+            bump('strace-unavailable')
+            return {'evals': 0, 'violations': [], 'obs': obs, 'sigs': [], 'sample': None}
+        sp, mx = make_spec(r)
+        rows = [o for o in sp['ops'] if o['op'] == 'channel'][0]['data']['shape'][0]
+        src = r.choice(['inline', 'dict', 'hdf5', 'struct'])
+        sp['write'] = {'source': src, 'input_chunk_size': r.choice(gen.chunk_choices(rows)),
+                       'output_chunk_size': r.choice([mx, mx + 2, 2 * mx, 3 * mx + 7, 4096.0 if mx <= 4096 else 2 * mx, 2 ** 16])}
+        prior = r.choice([None, None, 50, 100000])
+        if prior:
+            sp['write']['prior_bytes'] = prior
+            bump('syscall-prior-content')
+        ev = syscalls.trace(sp)
+        evals = 1
+        if ev['markers'] != (True, True) or ev['build_error'] or ev['write'] is None:
+            raise RuntimeError(f'traced child did not run the write: {ev["markers"]} {ev["build_error"]}')
+        bump('syscall-traced')
+        bump('syscall-lines-inside-markers', ev['lines_inside'])
+        if ev['write'][0] != 'ok' or ev['data'] is None:
+            vio.append({'prop': PROP, 'kind': 'accepted-config-raises', 'mech': 'syscall:config-raises',
+                        'detail': f'{sp["write"]}: {ev["write"]}'})
+        else:
+            bounds = vr_boundaries(ev['data'])
+            bad, sizes = syscalls.judge_target(ev, bounds)
+            bump('syscall-target-closes', len(sizes))
+            if len(sizes) >= 3:
+                bump('syscall-target-closes>=3')
+            for b_ in bad:
+                vio.append({'prop': PROP, 'kind': 'syscall-target', 'mech': 'syscall:' + b_.split(' (')[0][:60],
+                            'detail': f'{b_} (source {src}, {sp["write"]}, sizes at close {sizes[:8]})'})
+            for b_ in syscalls.judge_source(ev):
+                vio.append({'prop': PROP, 'kind': 'syscall-source', 'mech': 'syscall:' + b_[:60], 'detail': b_})
+            sigs.add(f'syscalls:{src}:{min(len(sizes), 6)}:{prior}')
+        sample = {'kind': 'syscall trace', 'source': src, 'write': sp['write'], 'target_opens': sum(1 for o in ev['opens'] if o[0] == 'target'),
+                  'writes': sum(1 for w_ in ev['writes'] if w_[0] == 'target' and w_[2] != 'close')}
+        return {'evals': evals, 'violations': vio, 'obs': obs, 'sigs': sorted(sigs), 'sample': sample}
 
     if case['kind'] in ('matrix', 'default'):
         sp, mx = make_spec(r)
